@@ -73,7 +73,19 @@ EDGE_FLOATS = [
 EDGE_INTS = [0, 1, -1, 2, 10, 2**31, 2**53, 2**53 + 1, 2**63, 2**64, -(2**63), 10**30, 10**400]
 
 
+import re as _re
+
+_ADJ_PAIR = _re.compile("([\ud800-\udbff])(?=[\udc00-\udfff])")
+
+
 def rand_string(rng, maxlen=12):
+    """random hostile string from the PARSER-VALUE domain: isolated lone surrogates may occur, an adjacent
+    high+low pair written as two code units may not (no JSON parser returns it; it would collide with the
+    non-BMP character by construction) - the high half of such a pair is separated from the low half"""
+    return _ADJ_PAIR.sub(lambda m: m.group(1) + "-", _rand_string(rng, maxlen))
+
+
+def _rand_string(rng, maxlen=12):
     r = rng.random()
     if r < 0.35:
         return rng.choice(EDGE_STRINGS)
